@@ -1,7 +1,7 @@
 (* C02, part 1: serialize does not depend on the iteration order of the four hash maps
    (nor, therefore, on the API history that produced them). *)
 From Coq Require Import List NArith ZArith Bool Lia Permutation Sorted.
-From Mila Require Import Lib.Bytes Lib.Machine Model.BinArchive Model.BinFormat Proofs.SortLemmas.
+From Mila Require Import Lib.Bytes Lib.Machine Model.BinArchive Model.BinFormat Proofs.SortLemmas Proofs.AMapLemmas.
 Import ListNotations.
 Local Open Scope N_scope.
 
@@ -119,4 +119,48 @@ Proof.
   rewrite <- (isort_key_perm_invariant (a_text a) (a_text a') Nt Pt).
   rewrite <- (Permutation_length Pt).
   reflexivity.
+Qed.
+
+(* ---- equal observations => equal content: the observational form of the theorem ---- *)
+Lemma am_get_app {V} (l1 l2 : amap V) x :
+  am_get x (l1 ++ l2) = match am_get x l1 with Some v => Some v | None => am_get x l2 end.
+Proof.
+  induction l1 as [|[k v] r IH]; cbn [app am_get]; [reflexivity|]. destruct (x =? k); [reflexivity | exact IH].
+Qed.
+
+Lemma lookups_perm {V} : forall (m m' : amap V),
+  NoDup (map fst m) -> NoDup (map fst m') -> (forall k, am_get k m = am_get k m') -> Permutation m m'.
+Proof.
+  induction m as [|[k v] r IH]; intros m' N1 N2 Hget.
+  - destruct m' as [|[k' v'] r']; [constructor|]. specialize (Hget k'). cbn [am_get] in Hget. rewrite N.eqb_refl in Hget. discriminate.
+  - inversion N1 as [|? ? Hn Hr]; subst.
+    assert (Hin : In (k, v) m').
+    { apply am_get_in. rewrite <- Hget. cbn [am_get]. rewrite N.eqb_refl. reflexivity. }
+    apply in_split in Hin. destruct Hin as (l1 & l2 & ->).
+    rewrite <- Permutation_middle. apply perm_skip. apply IH; [exact Hr| |].
+    + rewrite map_app in *. cbn [map fst] in N2. apply NoDup_remove_1 in N2. exact N2.
+    + intros x. destruct (N.eqb_spec x k) as [E|E].
+      * subst x. rewrite map_app in N2. cbn [map fst] in N2. apply NoDup_remove_2 in N2. rewrite <- map_app in N2.
+        transitivity (@None V); [apply am_get_none; exact Hn | symmetry; apply am_get_none; exact N2].
+      * specialize (Hget x). cbn [am_get] in Hget. destruct (N.eqb_spec x k); [congruence|].
+        rewrite Hget, !am_get_app. cbn [am_get]. destruct (N.eqb_spec x k); [congruence | reflexivity].
+Qed.
+
+(* archives that answer every lookup alike (whatever history or hash state produced them) *)
+Definition same_observations (a a' : archive) : Prop :=
+  a_data a' = a_data a /\ a_endian a' = a_endian a /\ a_cstrs a = [] /\ a_cstrs a' = [] /\
+  (forall k, am_get k (a_text a) = am_get k (a_text a')) /\
+  (forall k, am_get k (a_ptrs a) = am_get k (a_ptrs a')) /\
+  (forall k, am_get k (a_labels a) = am_get k (a_labels a')).
+Definition maps_are_maps (a : archive) : Prop :=
+  NoDup (map fst (a_text a)) /\ NoDup (map fst (a_ptrs a)) /\ NoDup (map fst (a_labels a)).
+
+Theorem serialize_deterministic m a a' :
+  maps_are_maps a -> maps_are_maps a' -> same_observations a a' -> serialize m a = serialize m a'.
+Proof.
+  intros (T1 & P1 & L1) (T2 & P2 & L2) (Hd & He & C1 & C2 & Gt & Gp & Gl).
+  apply serialize_order_independent; try assumption.
+  - repeat split; try assumption; try (apply lookups_perm; assumption). rewrite C1, C2. constructor.
+  - rewrite C1. constructor.
+  - rewrite C1. cbn [map concat]. rewrite app_nil_r. exact P1.
 Qed.
